@@ -22,6 +22,7 @@ type SpecEnv struct {
 	bound  map[string]Value
 	lets   []LetDef
 	inOld  bool
+	prevSt *State // loop lemma hints: the state at the head of the iteration (prev(e))
 	facts  *[]*Term // side facts (instances of pure-function contracts, cell ranges)
 	depth  int
 	// quantifier re-parametrisation
@@ -391,6 +392,15 @@ func (e *SpecEnv) call(n *ast.CallExpr) Value {
 		ne := *e
 		ne.inOld = true
 		return ne.Eval(arg(0))
+	case "prev":
+		// prev(e), in the lemma hints of a loop: the value of e at the head of the iteration
+		if e.prevSt == nil {
+			panic(verr("spec: prev() is only available in loop lemma hints"))
+		}
+		ne := *e
+		ne.st = e.prevSt
+		ne.cur = e.prevSt.lookupName
+		return ne.Eval(arg(0))
 	case "val":
 		// val("<source text>"): the last value of the code expression with that source text
 		lit, ok := arg(0).(*ast.BasicLit)
@@ -468,6 +478,10 @@ func (e *SpecEnv) call(n *ast.CallExpr) Value {
 	case "same":
 		a, b := e.slice(arg(0)), e.slice(arg(1))
 		return BoolV{Eq(a.Addr, b.Addr)}
+	case "pow":
+		// pow(x, n): x to the n-th power over the integers (n >= 0); an uninterpreted function in the
+		// verification conditions, reasoned about through the Lean-checked pow_* library rules
+		return IntV{App("pow", SInt, e.Int(arg(0)), e.Int(arg(1)))}
 	case "fresh":
 		// fresh(s): the storage of s was allocated during the call (it lies at or above the entry watermark)
 		a := e.slice(arg(0))
@@ -708,6 +722,19 @@ func (c *FuncCtx) applyPure(fi *FuncInfo, con *Contract, args []Value, emit func
 				c.setRange(t, lo, hi)
 				emit(And(Le(Const(lo), t), Le(t, Const(hi))))
 			}
+		} else if at, ok := rt.Underlying().(*types.Array); ok && at.Len() <= 8 {
+			// a small array of integers: one uninterpreted function per element
+			arr := ArrV{}
+			for j := int64(0); j < at.Len(); j++ {
+				t := App(fmt.Sprintf("%s.%d", nm, j), SInt, flat...)
+				if k, ok := intKindOf(at.Elem()); ok && k.bits > 0 {
+					lo, hi := k.rng()
+					c.setRange(t, lo, hi)
+					emit(And(Le(Const(lo), t), Le(t, Const(hi))))
+				}
+				arr.Elems = append(arr.Elems, IntV{t})
+			}
+			res = append(res, arr)
 		} else {
 			panic(verr("pure function %s: unsupported result type %s", fi.Obj.Name(), rt))
 		}
